@@ -415,7 +415,13 @@ class HGen:
         if regd and r.random() < 0.12:
             names = [r.choice(regd)[0], "c2"]      # a CTE named like a registered view
         for nm in names[: r.randint(1, 2)]:
-            f, cols, _ = self.pick_src(pref, cte_srcs if r.random() < 0.5 else ())
+            # a CTE body never reads its own name (circular in the engine; what an unused circular CTE does to the binder is
+            # not part of the engine model)
+            body_pref = [s for s in pref if s[0] != nm] or [s for s in srcs if s[0] != nm]
+            if not body_pref:
+                nm = "c1" if all(n != "c1" for n, _ in ctes) else "c3"
+                body_pref = list(pref) or list(srcs)
+            f, cols, _ = self.pick_src(body_pref, cte_srcs if r.random() < 0.5 else ())
             if r.random() < 0.25:
                 b, oc = self.gen_agg_over(f, cols)
             else:
@@ -458,11 +464,11 @@ class HGen:
             if n in BASE["tables"] and n in self.views[n]["reads"] and not self.user_only:
                 cands.append(SIG_SELFREF)
         for n in real_view_refs:
+            if self.views[n]["taint"]:
+                cands.append(self.views[n]["taint"])     # e.g. a registration that raised half-way left the cache behind
+        for n in real_view_refs:
             if self.cache.get(n) and self.cache[n] != list(self.views[n]["cols"]):
                 cands.append(SIG_STALE)
-        for n in real_view_refs:
-            if self.views[n]["taint"]:
-                cands.append(self.views[n]["taint"])
 
         # what sqlglot's qualify can know about the columns of a source
         def info(n, depth=0):
@@ -610,6 +616,7 @@ class HGen:
             star = SIG_STAR in sigs
             self.emit(["sql", text], f"(SSql {query_coq(q)})", "sql", sig, f"session.sql({text!r})", sigs)
             self.meta[-1]["selfref_cte"] = selfref_cte(q)
+            self.meta[-1]["refs"] = sorted({n.lower() for _, b in q["ctes"] for n in sq_names(b)} | {n.lower() for n in sq_names(q["main"])})
             self.push(out, self.embedded_of(q), star=star, taint=sig if sig != SIG_STAR else None, reads=self.reads_of(q))
             return
         if k < 0.74:
@@ -747,6 +754,7 @@ def corpus_history(desc, add_if_absent=True, **flags):
             out = out_cols_of(q, g)
             star = SIG_STAR in sigs
             g.emit(["sql", text], f"(SSql {query_coq(q)})", "sql", sig, f"session.sql({text!r})", sigs)
+            g.meta[-1]["refs"] = sorted({n.lower() for _, b in q["ctes"] for n in sq_names(b)} | {n.lower() for n in sq_names(q["main"])})
             g.push(out, g.embedded_of(q), star=star, taint=sig if sig != SIG_STAR else None, reads=g.reads_of(q))
         elif d[0] == "where":
             _, h, e = d
@@ -892,6 +900,7 @@ def run(ctx: core.Ctx):
         nontriv_h = False
         dead = set()          # handles whose defining query the engine itself rejects (or that were never created)
         nheap = nbase
+        rt_taint, rt_view = {}, {}     # handle / view key -> signature of the accepted deviation that produced it
         for i, (st, m, o) in enumerate(zip(h["steps"], h["meta"], r)):
             im, isp, ms, dom, es, ax = (ch == "1" for ch in v[6 * i: 6 * i + 6])
             used = {"reg": [st[2]] if m["kind"] == "reg" else [], "where": [st[1]] if m["kind"] == "where" else [],
@@ -902,10 +911,23 @@ def run(ctx: core.Ctx):
                 # registries of implementation (lazy) and oracle (materialised) legitimately differ: stop judging
                 n_skipped += len(h["steps"]) - i
                 break
+            created = None
             if m["kind"] in ("table", "sql", "where", "joinb"):
                 if "err" in o["oracle"]:
                     dead.add(nheap)
+                created = nheap
                 nheap += 1
+            inherited = [rt_taint[u] for u in used if u in rt_taint]
+            if m["kind"] == "sql":
+                inherited += [rt_view[n] for n in m.get("refs", []) if n in rt_view]
+            if m["kind"] == "table" and st[1].lower() in rt_view:
+                inherited.append(rt_view[st[1].lower()])
+            if m["kind"] == "reg":
+                rt_view.pop(st[1].lower(), None)
+                if inherited:
+                    rt_view[st[1].lower()] = inherited[0]
+            elif created is not None and inherited:
+                rt_taint[created] = inherited[0]
             n_steps += 1
             n_dom += dom
             hist_kind[m["kind"]] = hist_kind.get(m["kind"], 0) + 1
@@ -922,7 +944,8 @@ def run(ctx: core.Ctx):
                     "impl": short(o["impl"]), "engine_oracle": short(o["oracle"]),
                     "verdict(impl=model,impl=spec,model=spec,in_domain,engine=spec,alias_exact)": v[6 * i: 6 * i + 6],
                     "worker_steps": h["steps"][: i + 1], "coq_case": it if len(it) < 6000 else it[:6000] + "..."}
-            beyond = any(x in m["sigs"] and accepted(x, False, o) for x in (SIG_DUPCTE, SIG_SELFREF, SIG_ALIAS))
+            beyond = any((x in m["sigs"] or x in inherited) and accepted(x, False, o)
+                         for x in (SIG_DUPCTE, SIG_SELFREF, SIG_ALIAS, SIG_CAPTURE))
             if not es and not m.get("selfref_cte"):
                 engine_fail.append(desc)
             if not isp or (es and not same_engine):
@@ -930,10 +953,12 @@ def run(ctx: core.Ctx):
                 # a deviation carries the signature of a known finding only if the history has that finding's shape AND
                 # the faithful Coq model reproduces what the implementation did
                 sig = None
-                for cand in m["sigs"]:
+                for cand in list(m["sigs"]) + [x for x in inherited if x not in m["sigs"]]:
                     if accepted(cand, im, o):
                         sig = cand
                         break
+                if sig is not None and created is not None:
+                    rt_taint[created] = sig
                 if sig is None:
                     sig = "C13/unexplained:" + m["kind"] + ":" + (o["impl"].get("err") or "result-differs") + \
                           (":shape=" + m["sigs"][0].split("/")[1][:24] if m["sigs"] else "")
@@ -994,6 +1019,10 @@ def accepted(sig, impl_equals_model, o) -> bool:
         return "Duplicate CTE name" in msg
     if sig == SIG_SELFREF:
         return "Circular reference" in msg
+    if sig == SIG_CAPTURE:
+        # the captured inner CTE may close a cycle through the user's CTE of that name; how the engine's binder reports an
+        # (unused) cyclic CTE is below the model
+        return impl_equals_model or "Circular reference" in msg or "There is a WITH item named" in msg
     if sig == SIG_ALIAS:
         a, b = o["impl"], o["oracle"]
         return ("cols" in a and "cols" in b and len(a["cols"]) == len(b["cols"]) and a["cols"] != b["cols"]
